@@ -114,6 +114,7 @@ type loopInfo struct {
 	decHead string
 	autoInv []string
 	callsIn []int
+	heldEntry string
 }
 
 type FnV struct {
@@ -151,6 +152,7 @@ type FnV struct {
 	pending map[string]*pendingOb
 	panicking string
 	subSeen map[string]bool
+	curHeld string
 	pendingOrder []string
 }
 
@@ -285,6 +287,10 @@ func (fv *FnV) assume(st *State, fact string) {
 
 // havoc the components in ms; locals of this activation that never escape keep their values.
 func (fv *FnV) havoc(st *State, ms *ModSet, why string) {
+	// Lock state is not changed by calls: every function that locks or unlocks directly carries lock-balance
+	// obligations (package-wide `locks` tag), so by induction over the call tree a call returns with every mutex as it found it.
+	heldBefore := fv.heapGet(st, "G|held")
+	defer func() { st.heap["G|held"] = heldBefore }()
 	switch {
 	case ms.all || ms.external:
 		nb := fv.newBase()
